@@ -40,7 +40,7 @@ Inductive builtin :=
 
 Inductive meth :=
 | MLower | MUpper | MFind | MRfind | MIndex | MJoin | MToBytesBig | MToBytesLittle
-| MStartswith | MEndswith | MHex | MZfill | MSplit | MStrip | MIsdigit | MEncodeAscii.
+| MStartswith | MEndswith | MHex | MZfill | MSplit | MStrip | MIsdigit | MEncodeAscii | MFormat.
 
 Inductive expr : Type :=
 | EConst (v : val)
